@@ -90,6 +90,7 @@ def check(m, run):
     from . import c17 as _c17
     _c17.dom1(m, run)
     _c17.domain_getter(m, run)
+    rs.iv9_edits_through_setters(m, run)
 
 
 def pu3(m, run, P):
